@@ -7,7 +7,9 @@
 (* implementation deviations where that differs.                            *)
 EXTENDS Rules, Json, SequencesExt
 
-CONSTANTS Mode      \* "single" | "pairs" | "all"
+CONSTANTS Mode,     \* "single" | "pairs" | "all"
+          PairAlphabet, \* "sub" | "all"
+          PairStates    \* "tiny" | "cover"
 
 PA == <<"a">>
 PB == <<"b">>
@@ -58,8 +60,15 @@ PairRules ==
   \cup {BadDisallow}
 
 \* covering subset of link states for the pair mode
-PairItemStates == {st \in ItemStates : st[PB] \in {"abs", "same"} /\ st[PD] \in {"abs", "mat", "diff", "prod"}}
-PairRefStates  == {rs \in RefStates : rs[PB] = "abs"}
+PairItemStates ==
+  IF PairStates = "tiny"
+  THEN {st \in ItemStates : st[PB] = "abs" /\ st[PD] \in {"abs", "diff"}}
+  ELSE {st \in ItemStates : st[PB] \in {"abs", "same"} /\ st[PD] \in {"abs", "mat", "diff", "prod"}}
+PairRefStates ==
+  IF PairStates = "tiny"
+  THEN {rs \in RefStates : rs[PB] = "abs" /\ rs[PD] \in {"abs", "h1"}}
+  ELSE {rs \in RefStates : rs[PB] = "abs"}
+PairSet == IF PairAlphabet = "all" THEN AllRules ELSE PairRules
 
 SingleInit ==
   /\ \E r \in AllRules, side \in {"M", "P"} :
@@ -69,7 +78,7 @@ SingleInit ==
   /\ \E st \in ItemStates, rc \in RefChoices(RefStates) : links = LinksOf(st, rc)
 
 PairInit ==
-  /\ \E r1 \in PairRules, r2 \in PairRules, place \in {"MM", "PP", "MP"} :
+  /\ \E r1 \in PairSet, r2 \in PairSet, place \in {"MM", "PP", "MP"} :
        item = [name |-> "it",
                em |-> CASE place = "MM" -> <<r1, r2>> [] place = "PP" -> << >> [] OTHER -> <<r1>>,
                ep |-> CASE place = "MM" -> << >> [] place = "PP" -> <<r1, r2>> [] OTHER -> <<r2>>]
@@ -99,8 +108,8 @@ Out(b) == IF b THEN "ok" ELSE "err"
 
 DevOuts ==
   LET base == ItemOk(item, links, {}) IN
-  SetToSeq({[d |-> SetToSeq(ds), out |-> Out(ItemOk(item, links, ds))] :
-              ds \in {x \in SUBSET DevIds : x # {} /\ ItemOk(item, links, x) # base}})
+  SetToSeq({[d |-> d, out |-> Out(ItemOk(item, links, {d}))] :
+              d \in {x \in DevIds : ItemOk(item, links, {x}) # base}})
 
 Emit ==
   Terminal =>
